@@ -1,6 +1,7 @@
 package main
 
 import (
+	"regexp"
 	"fmt"
 	"math/big"
 	"strings"
@@ -200,6 +201,21 @@ type Script struct {
 func NewScript() *Script { return &Script{declrd: map[string]bool{}} }
 
 func (s *Script) Mark() int { return len(s.lines) }
+
+var boundSymRe = regexp.MustCompile(`q\.[A-Za-z_0-9]+!\d+`)
+
+// rollbackTo drops what was asserted since the mark (a clause that turned out not to be evaluable). Declarations and
+// definitions stay: the heap environment and the load cache may already refer to them. Definitions that mention a
+// bound variable of an abandoned quantifier are dropped with it (nothing outside the quantifier can refer to them).
+func (s *Script) rollbackTo(mark int) {
+	var keep []string
+	for _, l := range s.lines[mark:] {
+		if strings.HasPrefix(l, "(declare-") || (strings.HasPrefix(l, "(define-") && !boundSymRe.MatchString(l)) {
+			keep = append(keep, l)
+		}
+	}
+	s.lines = append(s.lines[:mark], keep...)
+}
 
 func (s *Script) DeclareSort(name string) {
 	if s.declrd["sort:"+name] {
